@@ -14,3 +14,5 @@ import FeedVerif.Props.C14
 import FeedVerif.Props.C09
 import FeedVerif.Model.EncDriver
 import FeedVerif.Props.C06
+import FeedVerif.Model.DoctypeDriver
+import FeedVerif.Props.C12
